@@ -30,6 +30,7 @@ mod c07;
 mod c08;
 mod c09;
 mod c10;
+mod c11;
 mod c12;
 mod c13;
 mod c14;
@@ -83,6 +84,7 @@ fn prop_fn(name: &str) -> Option<fn(&mut rep::Ctx)> {
         "c08" => c08::run,
         "c09" => c09::run,
         "c10" => c10::run,
+        "c11" => c11::run,
         "c12" => c12::run,
         "c13" => c13::run,
         "c14" => c14::run,
